@@ -6,6 +6,7 @@
 mod common;
 mod fixtures;
 mod props;
+mod subs_util;
 
 use common::*;
 use std::io::{BufRead, Write};
